@@ -813,3 +813,31 @@ pub async fn verif_negotiate_connection(
     .await
     .map(|connection| connection.peer())
 }
+
+#[cfg(litep2p_verif)]
+impl WebSocketTransport {
+    /// Read-only projection of the bookkeeping maps (verification hook).
+    pub(crate) fn verif_bookkeeping(&self) -> crate::verif::tcp::Bookkeeping {
+        fn keys<V>(map: &HashMap<ConnectionId, V>) -> Vec<usize> {
+            let mut keys: Vec<usize> = map.keys().map(|id| id.verif_as_usize()).collect();
+            keys.sort_unstable();
+            keys
+        }
+        let mut cancel_futures: Vec<(usize, bool)> = self
+            .cancel_futures
+            .iter()
+            .map(|(id, handle)| (id.verif_as_usize(), handle.is_aborted()))
+            .collect();
+        cancel_futures.sort_unstable();
+
+        crate::verif::tcp::Bookkeeping {
+            pending_dials: keys(&self.pending_dials),
+            pending_inbound: keys(&self.pending_inbound_connections),
+            opened: keys(&self.opened),
+            pending_open: keys(&self.pending_open),
+            cancel_futures,
+            pending_connections: self.pending_connections.len(),
+            pending_raw_connections: self.pending_raw_connections.len(),
+        }
+    }
+}
